@@ -692,8 +692,8 @@ pub fn run(ctx: &Ctx) {
             if checked == 0 { Outcome::Trivial } else { Outcome::Held }
         });
     }
-    ctx.run_sub("library-nodes", Plan::sample(t.pick(30_000, 1_000_000), 0.15), lib_case);
-    ctx.run_sub("random-larger-shapes", Plan::sample(t.pick(20_000, 1_000_000), 0.15), |rng, case| {
+    ctx.run_sub("library-nodes", Plan::sample(t.pick(150_000, 1_000_000), 0.15), lib_case);
+    ctx.run_sub("random-larger-shapes", Plan::sample(t.pick(100_000, 1_000_000), 0.15), |rng, case| {
         let n = rng.urange(8, 40);
         let ch = random_shape(rng, n);
         case.desc = Arena::from_children(&ch).render();
